@@ -222,8 +222,9 @@ def main():
     wall = time.time() - t0
     # ---------------- report
     level = cfg.get("level", "proof")
-    failed_n = len(violations) + len(known_hits)
-    discharged = max(obligations - failed_n, 0)
+    # obligations listed in KNOWN_FINDINGS.txt are reported separately (coverage.known_findings), not as discharged ones
+    obligations = max(obligations - len(known_hits), 0)
+    discharged = max(obligations - len(violations), 0)
     evdir = os.environ.get("VX_EVIDENCE_DIR") or os.path.join(VERIF, "evidence")
     os.makedirs(evdir, exist_ok=True)
     ev = {
